@@ -50,6 +50,15 @@ COMBOS = [
     # a defect inside the helper is not
     ("ben6-2.diff", "instrument.py", r"(?m)^            return d$", "            return datas[0]", ["C03"]),
     ("ben6-2.diff", "instrument.py", r"if open_data is not None:\n        return open_data\.sustain", "if open_data is not None and open_data.sustain:\n        return open_data.sustain", ["C03"]),
+    # single-exit style (`x = V; break ... else: x = W ... return x`) turned back into returns by tail duplication (T5)
+    ("ben29-2.diff", "sync.py", r"(?m)^            index = index_of_last_event$", "            index = index_of_last_event - 1", ["C11", "C01"]),
+    ("ben29-2.diff", "sync.py", r"(?m)^                break\n        else:", "                index += 1\n                break\n        else:", ["C11"]),
+    ("ben30-4.diff", "instrument.py", r"(?m)^            sustain = d\.sustain\n            break", "            sustain = datas[0].sustain\n            break", ["C03"]),
+    ("ben32-2.diff", "metadata.py", r"(?m)^            return _field_parsing_specs\[field_name\]\.processing_fn\(m\.group\(1\)\)", "            return _field_parsing_specs[field_name].processing_fn(m.group(0))", ["C10"]),
+    # `with contextlib.suppress(E)` is `try ... except E: pass`: a validator's error swallowed that way is still seen
+    ("ben29-6.diff", "sync.py", r"with contextlib\.suppress\(TypeError\):", "with contextlib.suppress(TypeError, ValueError):", ["C08"]),
+    # `match` desugared to if/elif: a defect in a case is still seen
+    ("ben29-3.diff", "time.py", r"case float\(\):", "case float() | int():", ["C01"]),
 ]
 
 
